@@ -1,4 +1,4 @@
-import UsualProofs.C11.Scalar
+import UsualProofs.C11.Inverse
 import UsualProofs.C11.Frame
 /-!
 # Property C11 — the UTF-8 codec accepts exactly well-formed UTF-8 and round-trips every scalar
@@ -274,6 +274,21 @@ example : getChar (rdOf ((putChar 2 0x7FF#32).2.2 ++ [0x41#8])) 3 = (0x7FF#32, 2
     match i, hi with
     | 0, _ => rfl
     | 1, _ => rfl)
+
+/-- Conversely `utf8_get_char` followed by `utf8_put_char` reproduces every well-formed
+sequence byte for byte: together with `put_get_roundtrip` the codec is a bijection between
+Unicode scalar values and the sequences of Table 3-7. -/
+theorem get_put_roundtrip (rd : Nat → B) (avail n room : Nat) (hn : n ≤ avail)
+    (h : WF (window rd n)) (hr : n ≤ room) :
+    putChar room (getChar rd avail).1 = (true, n, window rd n) := by
+  rw [getChar_wellformed rd avail n hn h]
+  have := putChar_decode (window rd n) room h (by rw [window_length]; exact hr)
+  rw [window_length] at this
+  exact this
+
+example : putChar 4 (getChar (rdOf [0xF0#8, 0x9F#8, 0x98#8, 0x80#8]) 4).1
+    = (true, 4, [0xF0#8, 0x9F#8, 0x98#8, 0x80#8]) :=
+  get_put_roundtrip _ 4 4 4 (by decide) (by decide) (by decide)
 
 /-- Nothing is stored and the destination pointer stays for surrogates and for values above
 U+10FFFF, whatever the room. -/
